@@ -473,6 +473,9 @@ fn judge_history(out: &mut Outcome, resp: &Value, via: u8, src0: &str, datas: &[
         } else if s["engine"]["n"].as_u64().is_some() {
             out.labels.push("via-engine:step-by-tree".into());
         }
+        if s["engine"]["splices"].as_u64().unwrap_or(0) > 0 {
+            out.labels.push("via-engine:splice-change".into());
+        }
         for m in s["mismatches"].as_array().cloned().unwrap_or_default().iter().take(2) {
             let m = Mismatch::from_json(m);
             let style = step_labels.get(i - 1).and_then(|l| l.iter().find(|x| x.starts_with("tree:"))).cloned().unwrap_or_default();
